@@ -3,6 +3,7 @@ package yqlib
 import (
 	"container/list"
 	"fmt"
+	"time"
 )
 
 type compareTypePref struct {
@@ -73,8 +74,9 @@ func compareScalars(context Context, prefs compareTypePref, lhs *CandidateNode, 
 	rhsTag := rhs.guessTagFromCustomType()
 
 	isDateTime := lhs.Tag == "!!timestamp"
-	// if the lhs is a string, it might be a timestamp in a custom format.
-	if lhsTag == "!!str" {
+	// if the lhs is a string, it might be a timestamp in a custom format
+	// (as for sort: a string is a string under the default layout)
+	if lhsTag == "!!str" && context.GetDateTimeLayout() != time.RFC3339 {
 		_, err := parseDateTime(context.GetDateTimeLayout(), lhs.Value)
 		isDateTime = err == nil
 	}
